@@ -54,3 +54,25 @@ package twins
 //@   loop 1 invariant [card2] len(commitCount) >= 2 ==> (exists h1 hotstuff.Hash, h2 hotstuff.Hash :: h1 != h2 && has(commitCount, h1) && has(commitCount, h2))
 //@   loop 1 invariant [none-yet] noCommits ==> (forall r hotstuff.ID :: {visited(0, r)} visited(0, r) ==> !qual(network, r, i))
 //@   loop 1 invariant [some] !noCommits ==> len(commitCount) >= 1 && i < 35184372088832
+
+// ---- cartesianProduct (C18: every generated scenario is well formed): every combination has
+// one entry per input list, and every combination lives in its own backing array (no two rows
+// alias, none aliases an input), so writing one combination never changes another.
+//@ func cartesianProduct property C18
+//@   requires len(input) <= 1000000
+//@   ensures [row-length] forall a int :: {output[a]} 0 <= a && a < len(output) ==> len(output[a]) == len(input)
+//@   ensures [rows-do-not-alias] forall a int, b int :: {output[a], output[b]} 0 <= a && a < b && b < len(output) && cap(output[a]) > 0 && cap(output[b]) > 0 ==> disjoint(output[a], output[b])
+//@   ensures [rows-are-new] forall a int :: {output[a]} 0 <= a && a < len(output) && cap(output[a]) > 0 ==> fresh(output[a])
+//@   loop 0 invariant [out] cap(output) == 0 || fresh(output)
+//@   loop 0 invariant [sep] cap(output) == 0 || cap(r) == 0 || disjoint(output, r)
+//@   loop 0 invariant [row-length] forall a int :: {output[a]} 0 <= a && a < len(output) ==> len(output[a]) == len(input)
+//@   loop 0 invariant [rows-do-not-alias] forall a int, b int :: {output[a], output[b]} 0 <= a && a < b && b < len(output) && cap(output[a]) > 0 && cap(output[b]) > 0 ==> disjoint(output[a], output[b])
+//@   loop 0 invariant [rows-are-new] forall a int :: {output[a]} 0 <= a && a < len(output) && cap(output[a]) > 0 ==> fresh(output[a])
+//@   loop 1 invariant [out] cap(output) == 0 || fresh(output)
+//@   loop 1 invariant [sep] cap(output) == 0 || cap(r) == 0 || disjoint(output, r)
+//@   loop 1 invariant [row-length] forall a int :: {output[a]} 0 <= a && a < len(output) ==> len(output[a]) == len(input)
+//@   loop 1 invariant [rows-do-not-alias] forall a int, b int :: {output[a], output[b]} 0 <= a && a < b && b < len(output) && cap(output[a]) > 0 && cap(output[b]) > 0 ==> disjoint(output[a], output[b])
+//@   loop 1 invariant [rows-are-new] forall a int :: {output[a]} 0 <= a && a < len(output) && cap(output[a]) > 0 ==> fresh(output[a])
+//@   loop 1 invariant [r] forall b int :: {r[b]} 0 <= b && b < len(r) ==> len(r[b]) == len(input) - 1
+//@   loop 0 invariant [r] forall b int :: {r[b]} 0 <= b && b < len(r) ==> len(r[b]) == len(input) - 1
+//@   modifies alloc
